@@ -94,6 +94,7 @@ pub fn focus_name(f: Focus) -> &'static str {
         Focus::Histories => "histories",
         Focus::Compile => "compile",
         Focus::Defaults => "defaults",
+        Focus::Values => "values",
         Focus::Cycles => "cycles",
         Focus::Determinism => "determinism",
         Focus::Fixtures => "fixtures",
@@ -105,6 +106,7 @@ pub fn focus_of(s: &str) -> Focus {
     match s {
         "compile" => Focus::Compile,
         "defaults" => Focus::Defaults,
+        "values" => Focus::Values,
         "cycles" => Focus::Cycles,
         "determinism" => Focus::Determinism,
         "fixtures" => Focus::Fixtures,
@@ -657,7 +659,7 @@ pub fn check(property: &str, tier: &str, base_seed: u64, workers: usize, runs_ov
     let mut value_modules = 0usize;
     let mut value_wall = 0.0f64;
     if property == "C06" && runs_override.map(|r| r >= 100).unwrap_or(true) {
-        let vstage = Stage { name: "values", focus: Focus::Defaults, faults: false, runs: if tier == "thorough" { 2000 } else { 200 }, stream: 43 };
+        let vstage = Stage { name: "values", focus: Focus::Values, faults: false, runs: if tier == "thorough" { 2000 } else { 200 }, stream: 43 };
         let n = vstage.runs;
         match value_stage(base_seed, &vstage, workers) {
             Ok((found, n_mod, counts, wall)) => {
@@ -1130,6 +1132,115 @@ pub fn covers(actual: Option<&Value>, expected: &Value) -> bool {
     }
 }
 
+/// The module text with one item per line (items of inline modules too), and
+/// for every line a label saying what kind of item it is: rustc error spans
+/// can then be attributed to "a default function", "the Default impl of a
+/// type", "the builder module", ...
+pub fn one_item_per_line(output: &str) -> (String, Vec<String>) {
+    use quote::ToTokens;
+    let Ok(file) = syn::parse_str::<syn::File>(output) else {
+        return (output.to_string(), vec!["?".into()]);
+    };
+    fn label(item: &syn::Item, scope: &str) -> String {
+        let base = match item {
+            syn::Item::Impl(i) => {
+                let tr = i.trait_.as_ref().map(|(_, p, _)| p.segments.last().map(|s| s.ident.to_string()).unwrap_or_default());
+                match tr.as_deref() {
+                    Some("Default") => "impl-Default".to_string(),
+                    Some(t) => format!("impl-{t}"),
+                    None => "impl".to_string(),
+                }
+            }
+            syn::Item::Fn(_) => "fn".to_string(),
+            syn::Item::Struct(_) | syn::Item::Enum(_) | syn::Item::Type(_) => "type".to_string(),
+            _ => "item".to_string(),
+        };
+        if scope.is_empty() {
+            base
+        } else {
+            format!("{scope}:{base}")
+        }
+    }
+    let mut text = String::new();
+    let mut labels = Vec::new();
+    fn emit(items: &[syn::Item], scope: &str, text: &mut String, labels: &mut Vec<String>) {
+        use quote::ToTokens;
+        for item in items {
+            match item {
+                syn::Item::Mod(m) if m.content.is_some() => {
+                    let mut head = String::new();
+                    for a in &m.attrs {
+                        head.push_str(&a.to_token_stream().to_string());
+                        head.push(' ');
+                    }
+                    head.push_str(&format!("{} mod {} {{", m.vis.to_token_stream(), m.ident));
+                    text.push_str(&head);
+                    text.push('\n');
+                    labels.push(format!("mod-{}", m.ident));
+                    let inner_scope = if scope.is_empty() { m.ident.to_string() } else { format!("{scope}/{}", m.ident) };
+                    emit(&m.content.as_ref().unwrap().1, &inner_scope, text, labels);
+                    text.push_str("}\n");
+                    labels.push(format!("mod-{}", m.ident));
+                }
+                other => {
+                    text.push_str(&other.to_token_stream().to_string());
+                    text.push('\n');
+                    labels.push(label(other, scope));
+                }
+            }
+        }
+    }
+    for a in &file.attrs {
+        text.push_str(&a.to_token_stream().to_string());
+        text.push('\n');
+        labels.push("attr".into());
+    }
+    emit(&file.items, "", &mut text, &mut labels);
+    (text, labels)
+}
+
+/// `cargo check` of a library made of the given modules; returns the indices
+/// of the modules rustc reports an error in.
+pub fn check_modules(tag: &str, modules: &[(u64, String)]) -> Result<BTreeSet<u64>, String> {
+    let root = report::verif_root();
+    let template = root.join("sim/rustc-check");
+    let dir = root.join(format!(".work/value/{tag}-{}", std::process::id()));
+    let _ = std::fs::remove_dir_all(&dir);
+    std::fs::create_dir_all(dir.join("src")).map_err(|e| e.to_string())?;
+    for f in ["Cargo.toml", "Cargo.lock", "rust-toolchain.toml"] {
+        std::fs::copy(template.join(f), dir.join(f)).map_err(|e| format!("copy {f}: {e}"))?;
+    }
+    let mut lib = String::from("#![allow(warnings)]\n");
+    for (idx, text) in modules {
+        std::fs::write(dir.join(format!("src/m{idx}.rs")), text).map_err(|e| e.to_string())?;
+        lib.push_str(&format!("pub mod m{idx};\n"));
+    }
+    std::fs::write(dir.join("src/lib.rs"), lib).map_err(|e| e.to_string())?;
+    let out = std::process::Command::new("cargo")
+        .args(["check", "--offline", "--message-format=json", "--quiet"])
+        .current_dir(&dir)
+        .env("CARGO_TARGET_DIR", root.join("target/rustccheck"))
+        .env("CARGO_NET_OFFLINE", "true")
+        .output()
+        .map_err(|e| format!("cargo check: {e}"))?;
+    let mut bad = BTreeSet::new();
+    for line in String::from_utf8_lossy(&out.stdout).lines() {
+        let Ok(m) = serde_json::from_str::<Value>(line) else { continue };
+        if m.get("reason") != Some(&json!("compiler-message")) || m["message"]["level"] != json!("error") {
+            continue;
+        }
+        let file = m["message"]["spans"].as_array().and_then(|a| a.first()).and_then(|s| s["file_name"].as_str()).unwrap_or("");
+        if let Some(i) = file.strip_prefix("src/m").and_then(|f| f.strip_suffix(".rs")).and_then(|f| f.parse::<u64>().ok()) {
+            bad.insert(i);
+        }
+    }
+    if !out.status.success() && bad.is_empty() {
+        return Err(format!("cargo check ({tag}) failed without attributable errors"));
+    }
+    let _ = std::fs::remove_dir_all(&dir);
+    Ok(bad)
+}
+
 #[derive(Debug, Clone)]
 pub enum ProbeAnswer {
     Ok(Value),
@@ -1142,7 +1253,7 @@ pub enum ProbeAnswer {
 /// functions), run it, and return the answer to every probe. Modules that do
 /// not compile are dropped (their errors belong to C01's rustc stage) and
 /// returned in the second component.
-pub fn run_value_crate(tag: &str, modules: &[(u64, String, Vec<exec::ValueProbe>)]) -> Result<(BTreeMap<(u64, usize), ProbeAnswer>, BTreeSet<u64>), String> {
+pub fn run_value_crate(tag: &str, modules: &[(u64, String, Vec<exec::ValueProbe>)]) -> Result<(BTreeMap<(u64, usize), ProbeAnswer>, BTreeMap<u64, (String, String)>), String> {
     let root = report::verif_root();
     let template = root.join("sim/rustc-check");
     let dir = root.join(format!(".work/value/{tag}-{}", std::process::id()));
@@ -1151,18 +1262,23 @@ pub fn run_value_crate(tag: &str, modules: &[(u64, String, Vec<exec::ValueProbe>
     for f in ["Cargo.toml", "Cargo.lock", "rust-toolchain.toml"] {
         std::fs::copy(template.join(f), dir.join(f)).map_err(|e| format!("copy {f}: {e}"))?;
     }
-    let mut dropped: BTreeSet<u64> = BTreeSet::new();
+    // module -> (finding key of its first rustc error, full text); errors in the
+    // probe code itself are keyed "probe-code"
+    let mut dropped: BTreeMap<u64, (String, String)> = BTreeMap::new();
     let mut answers: BTreeMap<(u64, usize), ProbeAnswer> = BTreeMap::new();
+    let mut line_labels: BTreeMap<u64, Vec<String>> = BTreeMap::new();
     for attempt in 0..3 {
         let mut main = String::from("#![allow(warnings)]\n");
         let mut calls = String::new();
         for (idx, out, probes) in modules {
-            if dropped.contains(idx) {
+            if dropped.contains_key(idx) {
                 let _ = std::fs::remove_file(dir.join(format!("src/m{idx}.rs")));
                 let _ = std::fs::remove_file(dir.join(format!("src/p{idx}.rs")));
                 continue;
             }
-            std::fs::write(dir.join(format!("src/m{idx}.rs")), out).map_err(|e| e.to_string())?;
+            let (split, labels) = one_item_per_line(out);
+            line_labels.insert(*idx, labels);
+            std::fs::write(dir.join(format!("src/m{idx}.rs")), split).map_err(|e| e.to_string())?;
             let mut p = String::from("#![allow(warnings)]\nuse crate::m");
             p.push_str(&format!("{idx} as m;\npub fn run() {{\n"));
             for (k, pr) in probes.iter().enumerate() {
@@ -1206,7 +1322,7 @@ pub fn run_value_crate(tag: &str, modules: &[(u64, String, Vec<exec::ValueProbe>
             .env("CARGO_NET_OFFLINE", "true")
             .output()
             .map_err(|e| format!("cargo build: {e}"))?;
-        let mut bad: BTreeSet<u64> = BTreeSet::new();
+        let mut bad: BTreeMap<u64, (String, String)> = BTreeMap::new();
         let mut unattributed: Vec<String> = Vec::new();
         let mut exe: Option<String> = None;
         for line in String::from_utf8_lossy(&out.stdout).lines() {
@@ -1228,9 +1344,13 @@ pub fn run_value_crate(tag: &str, modules: &[(u64, String, Vec<exec::ValueProbe>
                 .and_then(|f| f.strip_suffix(".rs"))
                 .and_then(|f| f.parse().ok());
             let text = msg["message"].as_str().unwrap_or("");
+            let code = msg["code"]["code"].as_str().unwrap_or("no-code");
             match idx {
                 Some(i) => {
-                    bad.insert(i);
+                    let line = msg["spans"].as_array().and_then(|a| a.iter().find(|s| s["is_primary"] == json!(true)).or(a.first())).and_then(|s| s["line_start"].as_u64()).unwrap_or(0) as usize;
+                    let place = line_labels.get(&i).and_then(|l| l.get(line.saturating_sub(1))).cloned().unwrap_or_else(|| "?".into());
+                    let key = if file.starts_with("src/p") { "probe-code".to_string() } else { format!("rustc:{code}:{}|in:{place}", normalise_rustc_message(text)) };
+                    bad.entry(i).or_insert((key, format!("error[{code}]: {text}")));
                 }
                 None => {
                     if !(text.contains("aborting due to") || text.contains("could not compile")) {
@@ -1248,7 +1368,7 @@ pub fn run_value_crate(tag: &str, modules: &[(u64, String, Vec<exec::ValueProbe>
                 // every module on its own; the one that dies answers `panic`
                 stdout_all.clear();
                 for (idx, _, probes) in modules {
-                    if dropped.contains(idx) {
+                    if dropped.contains_key(idx) {
                         continue;
                     }
                     let one = std::process::Command::new(&exe).arg(idx.to_string()).output().map_err(|e| format!("run {exe}: {e}"))?;
@@ -1315,22 +1435,44 @@ pub fn judge_value_probes(idx: u64, probes: &[exec::ValueProbe], answers: &BTree
                 *counts.entry("value_stage.minimal_instance_rejected_by_generated_type".into()).or_insert(0) += 1;
             }
             ProbeAnswer::Panic => {
-                for (member, d, class) in &pr.expect {
+                for (member, d, class, _) in &pr.expect {
                     out.push(Violation {
                         invariant: "I12".into(),
                         key: format!("default-panics-at-run-time|{class}"),
                         step: 0,
-                        observed: format!("{} ({}): producing the default of {} panics in the compiled output (schema default {})", pr.type_name, pr.site, if member.is_empty() { "the type".to_string() } else { format!("member `{member}`") }, d),
+                        observed: format!("{} ({}): producing the default of {} panics in the compiled output (schema default {})", pr.type_name, pr.site, if pr.kind == "type-default" { "the type".to_string() } else { format!("member `{member}`") }, d),
                         expected: "the realised default serialises to the schema's default".into(),
                     });
                 }
             }
             ProbeAnswer::Ok(v) => {
                 *counts.entry(format!("value_stage.answered.{}", pr.kind)).or_insert(0) += 1;
-                for (member, d, class) in &pr.expect {
-                    let actual = if member.is_empty() { Some(&v) } else { v.get(member) };
+                for (member, d, class, filled) in &pr.expect {
+                    let actual = if pr.kind == "type-default" { Some(&v) } else { v.get(member) };
                     if covers(actual, d) {
                         *counts.entry("value_stage.default_reproduced".into()).or_insert(0) += 1;
+                        // "up to filling of nested defaults": a member the default omits
+                        // is realised with ITS schema default, not with some other value
+                        if filled != d {
+                            if covers(actual, filled) {
+                                *counts.entry("value_stage.nested_defaults_filled_in".into()).or_insert(0) += 1;
+                            } else {
+                                out.push(Violation {
+                                    invariant: "I12".into(),
+                                    key: format!("default-value-differs:{}:omitted-member-not-its-default|{class}", pr.kind),
+                                    step: 0,
+                                    observed: format!(
+                                        "{} ({}): the realised default {} reproduces the schema's default {} but a member that default omits does not get its own schema default (with nested defaults filled in: {})",
+                                        pr.type_name,
+                                        pr.site,
+                                        actual.map(|a| a.to_string()).unwrap_or_else(|| "absent".into()),
+                                        d,
+                                        filled
+                                    ),
+                                    expected: "the realised default serialises to the schema's default up to filling of nested defaults".into(),
+                                });
+                            }
+                        }
                     } else {
                         out.push(Violation {
                             invariant: "I12".into(),
@@ -1342,7 +1484,7 @@ pub fn judge_value_probes(idx: u64, probes: &[exec::ValueProbe], answers: &BTree
                                 "{} ({}): {} is {} in the compiled output, the schema's default is {}",
                                 pr.type_name,
                                 pr.site,
-                                if member.is_empty() { "<T as Default>::default()".to_string() } else if pr.kind == "builder-defaults" { format!("member `{member}` of `T::builder().try_into()`") } else { format!("member `{member}` of a value deserialised without it") },
+                                if pr.kind == "type-default" { "<T as Default>::default()".to_string() } else if pr.kind == "builder-defaults" { format!("member `{member}` of `T::builder().try_into()`") } else { format!("member `{member}` of a value deserialised without it") },
                                 actual.map(|a| a.to_string()).unwrap_or_else(|| "absent".into()),
                                 d
                             ),
@@ -1405,8 +1547,47 @@ pub fn value_stage(base_seed: u64, stage: &Stage, workers: usize) -> Result<(Vec
     let (answers, dropped) = run_value_crate(stage.name, &modules)?;
     *counts.entry("value_stage.modules_dropped_rustc_error".into()).or_insert(0) += dropped.len() as u64;
     let mut found = Vec::new();
+    // ----- a module that does not compile: is it the defaults? -----
+    // The same session with every default annotation removed is rendered and
+    // type-checked; when that compiles, (valid) defaults were turned into code
+    // rustc rejects.
+    let mut stripped: Vec<(u64, String)> = Vec::new();
+    for (idx, (key, _)) in &dropped {
+        if key == "probe-code" {
+            *counts.entry("value_stage.probe_code_does_not_compile".into()).or_insert(0) += 1;
+            continue;
+        }
+        let desc = gen::generate(seeds[idx], stage.focus, stage.faults);
+        let (out, hung) = exec::execute_watched(&exec::without_defaults(&desc), std::time::Duration::from_secs(RUN_TIMEOUT_S));
+        if hung {
+            continue;
+        }
+        if let Some(text) = out.final_output {
+            stripped.push((*idx, text));
+        }
+    }
+    if !stripped.is_empty() {
+        let failing = check_modules(&format!("{}-stripped", stage.name), &stripped)?;
+        for (idx, _) in &stripped {
+            if failing.contains(idx) {
+                *counts.entry("value_stage.uncompilable_without_defaults_too".into()).or_insert(0) += 1;
+                continue;
+            }
+            let (key, text) = &dropped[idx];
+            found.push((
+                seeds[idx],
+                Violation {
+                    invariant: "I12".into(),
+                    key: format!("default-makes-output-uncompilable:{key}"),
+                    step: 0,
+                    observed: format!("the final output of the session does not compile ({text}); the same session without its (valid) defaults compiles"),
+                    expected: "an accepted default is realised as code that compiles and yields the schema's default".into(),
+                },
+            ));
+        }
+    }
     for (idx, _out, probes) in &modules {
-        if dropped.contains(idx) {
+        if dropped.contains_key(idx) {
             continue;
         }
         for v in judge_value_probes(*idx, probes, &answers, &mut counts) {
@@ -1427,8 +1608,21 @@ pub fn value_replay(r: &ReplayFile) -> i32 {
     let modules = vec![(0u64, text, probes.clone())];
     match run_value_crate("replay", &modules) {
         Ok((answers, dropped)) => {
-            if !dropped.is_empty() {
-                println!("NOT-REPRODUCED (the module does not compile; see the rustc stage of C01)");
+            if let Some((key, text)) = dropped.get(&0) {
+                if r.finding_key == format!("default-makes-output-uncompilable:{key}") {
+                    let (o2, _) = exec::execute_watched(&exec::without_defaults(&r.run), std::time::Duration::from_secs(RUN_TIMEOUT_S));
+                    let compiles_without = match o2.final_output {
+                        Some(t) => check_modules("replay-stripped", &[(0u64, t)]).map(|f| f.is_empty()).unwrap_or(false),
+                        None => false,
+                    };
+                    if compiles_without {
+                        println!("  {text}");
+                        println!("REPRODUCED {} {}", r.invariant, r.finding_key);
+                        println!("VIOLATION property={} replay=<this file>", r.property);
+                        return 1;
+                    }
+                }
+                println!("NOT-REPRODUCED (the module does not compile: {text})");
                 return 0;
             }
             let mut counts = BTreeMap::new();
